@@ -125,6 +125,19 @@ def run(w, rep, tier):
     want_w = cm.matmul(cm.inv(J), cm.ew(Mb, cm.cross(omv, cm.matmul(J, omv)), cm.psub))
     verdict(rep, "C16.newton", "J omega_dot = sum_i [r_i x F_i - CM dir_i F_i z + aero_i] - omega x J omega", w.sl(xd0, 10, 13), want_w, (), W,
             "rotational dynamics are not Euler's equation with the rotor moments (arm x thrust, reaction torque opposite to spin)")
+    # ---- drag: the only effect of CD0 is a force along -v_b (body frame), of magnitude CD0 (rho |v|^2 / 2) S
+    rho = pa.get("rho")
+    if CD0 is not None and rho is not None and S is not None:
+        moving = {c: True for c in ite_conditions(xd_air) if c.single_atom() is not None and c.single_atom().kind == "lt" and c.single_atom().key[0].const_value() is not None
+                  and any(a_.kind == "sqrt" for a_ in c.single_atom().key[1].atoms())}          # |v| above the 1e-5 tolerance
+        xd_mv = assign_ites(xd_air, moving) if moving else xd_air
+        dv = cm.ew(w.sl(xd_mv, 3, 6), w.sl(subs_syms(xd_mv, zero_drag), 3, 6), cm.psub)
+        V = cm.un("sqrt", cm.sumsqr(vv).s())
+        want_d = cm.ew(vv, cm.scalar((A(CD0) * A(rho) * A(S) * V * A(m_).recip()).scale(Fraction(-1, 2))), cm.pmul)
+        verdict(rep, "C16.newton", "drag: v_dot(CD0) - v_dot(0) = -CD0 rho S |v| v_b / (2 m)  (opposite to the body velocity)", dv, want_d, quats, W,
+                "the drag contribution is not a body-frame force opposite to the body velocity")
+        rest = [i for i in range(xd_air.r) if not 3 <= i < 6 and xd_air.cells[i][0] != xd0.cells[i][0]]
+        rep.check("C16.newton", "drag acts on the translational dynamics only", not rest, "CD0 also changes state derivatives %s" % rest, where=W)
     # ---- hover equilibrium with the default geometry
     pd = model["p_defaults"]
     geo = {}
